@@ -96,3 +96,27 @@ next:
 	}
 	return b.String()
 }
+
+// protocolParams are the parameter names of the bindings themselves (never sent as noise).
+var protocolParams = []string{"SAMLRequest", "SAMLResponse", "SAMLEncoding", "RelayState", "SigAlg", "Signature", "id"}
+
+// dictHeaders are request headers named after every name of the dictionary (and its X- form); header names with a
+// meaning for net/http or for the issuer derivation are left out.
+func dictHeaders() map[string]string {
+	out := map[string]string{}
+	for i, w := range dictWords() {
+		switch strings.ToLower(w) {
+		case "content-type", "content-length", "content-disposition", "host", "forwarded", "transfer-encoding", "connection", "expect", "http", "https":
+			continue
+		}
+		if strings.ContainsAny(w, "._") {
+			continue
+		}
+		v := []string{"1", "true", "on"}[i%3]
+		out[w] = v
+		if !strings.HasPrefix(strings.ToLower(w), "x-") {
+			out["X-"+w] = v
+		}
+	}
+	return out
+}
